@@ -339,4 +339,53 @@ theorem inplace_truncates (s0 : FS) (hq : Quiet s0) (fd : Nat) (f : Str) (old ne
         · exact h1 (Option.some.inj h).symm
         · exact h2 (Option.some.inj h).symm
 
+/-! ### kill + restart -/
+
+/-- start-up is the identity on what the file system holds: same content, same crash images. -/
+theorem restart_id (s s' : FS) (f : Str) (h : step s .restart = some s') :
+    content s' f = content s f ∧ crashContents s' f = crashContents s f := by
+  simp only [step, Option.some.injEq] at h
+  subst h
+  exact ⟨rfl, rfl⟩
+
+theorem trace_take : ∀ (ops : List Op) (s : FS) (sts : List FS), trace s ops = some sts →
+    ∀ k, k ≤ ops.length → ∃ sk, run s (ops.take k) = some sk ∧ sk ∈ sts := by
+  intro ops
+  induction ops with
+  | nil =>
+    intro s sts h k hk
+    simp only [PV.FS.trace, Option.some.injEq] at h
+    subst h
+    exact ⟨s, by simp [run], by simp⟩
+  | cons op r ih =>
+    intro s sts h k hk
+    simp only [PV.FS.trace] at h
+    cases hs : step s op with
+    | none => simp [hs] at h
+    | some s1 =>
+      simp only [hs] at h
+      cases ht : PV.FS.trace s1 r with
+      | none => simp [ht] at h
+      | some sts1 =>
+        simp only [ht, Option.map_some, Option.some.injEq] at h
+        subst h
+        cases k with
+        | zero => exact ⟨s, by simp [run], by simp⟩
+        | succ k =>
+          obtain ⟨sk, hr, hm⟩ := ih s1 sts1 ht k (by simpa using hk)
+          exact ⟨sk, by simp [run, hs, hr], by simp [hm]⟩
+
+/-- **kill at ANY point of the atomic protocol, then restart**: the run up to the kill succeeds, the
+restart succeeds, and afterwards every crash image of `f` is still the complete old or the
+complete new content. -/
+theorem atomic_kill_restart (s0 : FS) (fd : Nat) (tmp f : Str) (chunks : List Bytes) (hq : Quiet s0)
+    (hne : tmp ≠ f) (hab : aget s0.dir tmp = none) (k : Nat) (hk : k ≤ (atomicWriteOps fd tmp f chunks).length) :
+    ∃ sk s', run s0 ((atomicWriteOps fd tmp f chunks).take k) = some sk ∧ step sk .restart = some s' ∧
+      content s' f = content sk f ∧ Good f (content s0 f) chunks.flatten s' := by
+  obtain ⟨sts, ht, hall, _⟩ := (atomic_allStates s0 fd tmp f chunks hq hne hab).trace _ _
+  obtain ⟨sk, hr, hm⟩ := trace_take _ s0 sts ht k hk
+  refine ⟨sk, { sk with fds := [] }, hr, rfl, rfl, ?_⟩
+  intro c hc
+  exact hall sk hm c hc
+
 end PV.FS
